@@ -25,7 +25,12 @@ What a solver can reach here is small and only this is claimed:
 
 (3) ref-vs-path kernel.  is_gitref over real temp files / directories and a
     stubbed ref validity: whatever exists on disk is a path, the null file is
-    never a ref; resolve_diff_args routes a single argument accordingly.
+    never a ref; resolve_diff_args routes one, two or three positional
+    arguments accordingly (a ref followed by the path of a file that no longer
+    exists is base + path filter).
+(4) a second identical request in the same process after the refs moved (new
+    blob contents behind the same ref names and paths) pairs the current
+    contents.
 
 Outside the claim, explicitly: that GitPython / git report the right set of
 changed files for any history, renames across file types, ref-vs-path
@@ -56,7 +61,7 @@ def main():
     chk.stubs += ["nbdime.utils.os -> FakeOS (cwd model over tokens)", "nbdime.gitfiles.Repo -> stand-in for git.Repo (only one directory is a repository; the real get_repo walks up to it)",
                   "nbdime.gitfiles.apply_possible_filter -> identity", "nbdime.gitfiles.io -> in-memory files"]
     chk.require_goals(["pushd-body-raises", "pairs-yielded", "non-notebook-skipped", "working-tree", "identical-blobs",
-                       "existing-directory-that-is-also-a-ref"])
+                       "existing-directory-that-is-also-a-ref", "ref-then-deleted-path", "second-request-after-refs-moved"])
     return chk.finish()
 
 
